@@ -15,7 +15,7 @@ import numpy as np
 from . import common as C
 
 PID = "C11"
-MY_FILES = ["Model/ChowLiu.v", "Model/ChowLiuRun.v", "Proofs/ChowLiuFacts.v", "Proofs/ChowLiuTree.v"]
+MY_FILES = ["Model/ChowLiu.v", "Model/ChowLiuRun.v", "Proofs/ChowLiuTree.v", "Proofs/ChowLiuFacts.v"]
 ALPHAS = [0.1, 1.0, 0.5, 0.01, 2.0, 0.25, 0.001]
 MI_TOL = 2e-5          # |float32 MI - float64 reference MI|
 MASS_TOL = 2e-4        # |sum of likelihoods over all assignments - 1|
@@ -344,6 +344,7 @@ def run_tie(rep, tier, rs, replay=None):
                 cases.append(gen_case(rs, idx, n)); idx += 1
     dist = dict(n={}, kind={}, rows_lt_vars=0, const_cols=0, dup_cols=0, root_random=0, zero_rows=0)
     runs = []
+    ndirect = 0
     for case in cases:
         n = case["n"]; d = case["data"]
         dist["n"][n] = dist["n"].get(n, 0) + 1
@@ -357,16 +358,20 @@ def run_tie(rep, tier, rs, replay=None):
         try:
             out = run_impl(case)
         except Exception as e:  # the fit must succeed on every binary matrix with alpha > 0
-            rep.violation(dict(kind="fit-raised", error=f"{type(e).__name__}: {e}", case=brief(case)), True)
+            ndirect += 1
+            if ndirect <= 5:
+                rep.violation(dict(kind="fit-raised", error=f"{type(e).__name__}: {e}", case=brief(case)), True)
             continue
         # python-side clauses (correspondence-only)
         want = case["scope"].index(case["req"]) if case["req"] is not None else out["root"]
-        bad = None
+        bad = None; malformed = False
         if not (0 <= out["root"] < n) or out["root"] != want:
             bad = dict(what="root is not the requested / an in-scope variable", root=out["root"], expected=want)
-        elif len(out["tree"]) != n or out["params"].shape != (n, 2, 2) or not np.all(np.isfinite(out["params"])) \
-                or not np.all(np.isfinite(out["mi"])):
-            bad = dict(what="malformed output (shape / non-finite values)")
+            want = want if 0 <= want < n else 0
+        elif len(out["tree"]) != n or len(out["bfs"]) > n or out["params"].shape != (n, 2, 2) or out["mi"].shape != (n, n) \
+                or not np.all(np.isfinite(out["params"])) or not np.all(np.isfinite(out["mi"])) \
+                or any(not (-1 <= t < n) for t in out["tree"]) or any(not (0 <= b < n) for b in out["bfs"]):
+            bad = dict(what="malformed output (shape / range / non-finite values)"); malformed = True
         else:
             R = ref_mi(d, case["alpha"])
             err = float(np.max(np.abs(out["mi"] - R))) if n > 1 else 0.0
@@ -376,10 +381,14 @@ def run_tie(rep, tier, rs, replay=None):
             elif out["mass"] is not None and abs(out["mass"] - 1.0) > MASS_TOL:
                 bad = dict(what="fitted tree is not normalised (sum over all assignments)", total_mass=out["mass"])
         if bad:
-            rep.violation(dict(kind="direct-check-failed", failure=bad, case=brief(case, out)), True)
-            continue
+            ndirect += 1
+            if ndirect <= 5:      # every further failing case is still counted in the evidence
+                rep.violation(dict(kind="direct-check-failed", failure=bad, case=brief(case, out)), True)
+            if malformed:
+                continue
         runs.append((case, out, want))
     rep.cov["input_distribution"] = dist
+    rep.cov["direct_check_failures"] = ndirect
     # E1 shards, balanced by brute-force cost
     cost = lambda c: c["n"] ** max(c["n"] - 1, 1) * c["n"] if c["n"] <= 7 else 5000
     order = sorted(range(len(runs)), key=lambda i: -cost(runs[i][0]))
